@@ -22,3 +22,6 @@ def check(ctx: Ctx) -> None:
     from .lifecycle import check_lifecycle
     ctx.rep.rule("R08.6", "a task is filed in one of the registries gather_and_close gathers at every suspension / user-code step of its life cycle")
     check_lifecycle(ctx, "R08.6", {"loc"})
+    # gather_and_close waits for what the registries show: a task overwritten by another one with the same id is invisible to it (id discipline shared with C11)
+    from . import naming as _N
+    _N.r_id_discipline(ctx, "R08.9")
